@@ -311,6 +311,48 @@ func c06ForwardDollar(shape string, x, y int64, org int64, mode int, k int) *Pro
 	return &ProgCase{P: p, Prop: "C06", Cell_: fmt.Sprintf("forward-dollar %s m%d org=%d", shape, mode, org)}
 }
 
+// DivZeroCase: an expression that divides by zero has no value: the statement must be refused with a diagnostic, never assembled
+// with an invented number.
+type DivZeroCase struct {
+	Src   string `json:"src"`
+	Shape string `json:"shape"`
+	Cell_ string `json:"cell"`
+}
+
+func (c *DivZeroCase) Kind() string { return "divzero" }
+func (c *DivZeroCase) Reqs() []Req  { return []Req{{Src: []byte(c.Src)}} }
+func (c *DivZeroCase) Judge(rs []Res, env *Env) Outcome {
+	o := Outcome{Cell: c.Cell_}
+	if rs[0].Crashed() {
+		o.Status, o.Note = Rejected, "crash (C13's business)"
+		return o
+	}
+	if ok, _ := env.accepted(&rs[0]); ok {
+		o.Status = Violated
+		o.Viols = []Violation{{Sig: "C06|div-by-zero-accepted|" + c.Shape, Detail: fmt.Sprintf("a division by zero is assembled without any diagnostic; output %x; program:\n%s", clip(rs[0].Out, 40), c.Src)}}
+		return o
+	}
+	o.Status = Held
+	return o
+}
+func init() { registerKind("divzero", func() Case { return &DivZeroCase{} }) }
+
+func c06DivZero() []Case {
+	var out []Case
+	exprs := []string{"0/0", "0%0", "5/0", "5%0", "0/A", "0%A", "A/A", "A%A+3", "(B-7)/A", "0*5/0", "7%7/0", "B/(B-7)", "1+0/0", "0/0*5", "-0/A", "B%A", "0/(A*2)"}
+	forms := []struct{ name, f string }{{"dd", "\tDD %s"}, {"db", "\tDB %s"}, {"mov", "\tMOV EAX,%s"}, {"add", "\tADD CX,5+%s"}, {"disp", "\tMOV AX,[BX+%s]"}, {"resb", "\tRESB 2+%s"}, {"equ", "Z\tEQU\t%s\n\tDD Z+1"}}
+	for i, e := range exprs {
+		for j, f := range forms {
+			src := "A\tEQU\t0\nB\tEQU\t7\n" + fmt.Sprintf(f.f, e) + "\n"
+			if (i+j)%2 == 1 {
+				src = "[BITS 32]\n" + src
+			}
+			out = append(out, &DivZeroCase{Src: src, Shape: f.name + " " + e, Cell_: "div-by-zero " + f.name})
+		}
+	}
+	return out
+}
+
 func init() {
 	props["C06"] = propCheck{run: func(env *Env, rep *Report) {
 		env.InitBaseline()
@@ -349,7 +391,8 @@ func init() {
 				}
 			}
 		}
-		rep.Rule = "forward shapes with $ (the body mentions $ and names defined further down; the name is used at other addresses than the EQU line's): 11 shapes x 3 values x 2 origins; every forward shape (an EQU body over names defined further down: 37 shapes x 4 x 2 values, also reached through a second EQU) compared with the same shape after the definitions and written in place; " +
+		cases = append(cases, c06DivZero()...)
+		rep.Rule = "divisions and remainders by zero (17 expressions, literal and through EQU names, with zero and non-zero dividends, in 7 operand positions) must be refused; forward shapes with $ (the body mentions $ and names defined further down; the name is used at other addresses than the EQU line's): 11 shapes x 3 values x 2 origins; every forward shape (an EQU body over names defined further down: 37 shapes x 4 x 2 values, also reached through a second EQU) compared with the same shape after the definitions and written in place; " +
 			"seeded programs: 0-3 chained EQU definitions, then 2-6 expression trees of depth <= 4 over boundary literals, + - * / %, parentheses, EQU names (reused after appearing inside products and differences) and $, each placed in a seeded operand position " +
 			"(DB/DW/DD lane, list lane, MOV/ALU immediate, [reg+expr] displacement, RESB expr, ALIGNB expr, EQU body) and rendered in two spacings; plus sums whose constant terms are interleaved differently with $ / an EQU name; " +
 			"oracle: math/big evaluator (precedence, left associativity, truncation toward zero) compared with the value observed in the output through the walker / reference decoder; non-trivial = accepted and all lanes judged; distinct = (mode, number of EQUs, last position) cells"
